@@ -19,6 +19,15 @@ class C14(Prop):
     TRUSTED = ["uuid5 / repr(float) injectivity (identifiers are compared with uuid5 recomputed from the model's bounds)"]
 
     def _case(self, rng):
+        if rng.random() < 0.15:
+            # fine lattices (ultrasonic-style hops far below a millisecond, bounds with many decimals): identifiers must stay
+            # distinct and be derived from the exact bounds
+            u = Fraction(1, 2 ** rng.choice([4, 6, 10, 12, 14]))
+            s0 = rng.randint(0, 3) + u * rng.randint(0, 64)
+            hop = u * rng.randint(1, 3)
+            dur = u * rng.randint(1, 10)
+            return {"kind": "fine", "s": s0, "e": s0 + u * rng.randint(0, 60), "dur": dur, "hop": None if rng.random() < 0.1 else hop,
+                    "incl": rng.random() < 0.5}
         q = lambda lo, hi, b=2: Fraction(rng.randint(lo * (1 << b), hi * (1 << b)), 1 << b)
         s = q(0, 8)
         shape = rng.random()
